@@ -42,7 +42,8 @@ def gen_pattern(r, field):
     if x < 90:
         return '[!' + v[0] + ']*'
     if x < 95:
-        return r.pick(['zz', 'nomatch*', '?'])
+        # ... and the empty pattern, which matches the empty string only
+        return r.pick(['zz', 'nomatch*', '?', ''])
     return v[:1] + '*' + v[-1:]
 
 
